@@ -11,11 +11,20 @@ Proved here:
 * `analyze_spec_name_partial` – the decision `AnalyzeName` takes for one name is `resolve`'s
                               classification / the name-level rejection rules, given the
                               pass-1 flags and the `bound` set that mirror the source
+* `analyze_spec`            – WHOLE TREE: for every program and every iteration order, gpython's two-pass
+                              analysis rejects exactly the programs the specification rejects, and otherwise
+                              every block's table classifies every name as the specification does
+* `analyze_spec_rejects_iff`, `analyze_spec_scope` – corollaries
+* `pass1_spec`              – invariant (i): pass 1 = the source facts, its errors = the textual rules
+* `bound_copy_needed_witness` – without `temp_bound := bound.Copy()` (seeded change C03-a) the analysis
+                              contradicts the specification on a concrete program
+* `closure_shares_cell`, `closure_shares_cell_run` – VM: closures of one activation share one cell per variable
 * `nameop_*`                – NameOp's scope → opcode-family table
 * `slots_wellformed`, `slots_in_frame`, `closure_slots_wellformed_partial`,
   `closure_slot_fallback_witness` – DEREF / LOAD_CLOSURE operands address the right cell
 -/
-import GPy.C03.Proofs
+import GPy.C03.ProofsSpec6
+import GPy.C03.ProofsVM
 namespace GPy.C03
 
 /-! ## order independence -/
@@ -195,5 +204,283 @@ theorem closure_slot_fallback_witness :
     let c : Code := { typ := .function, syms := ⟨fun n => if n = "z" then some { scope := .local } else none⟩,
                       params := [], cellvars := ["a"], freevars := [] }
     closureSlot c "z" = some 0 ∧ varName c 0 = some "a" := by decide
+
+
+/-! ## the whole analysis against the specification -/
+
+/-- **analyze_spec.**  For EVERY program (any nesting of module / def / lambda / class / comprehension
+blocks, any placement of bind / use / global / nonlocal / del, any parameters, any names) and EVERY
+iteration order of Go's maps, `symtable.NewSymTable` (model: pass 1 `parseModule`, pass 2 `analyzeTop`)
+and the specification `specAnalyze` (Python's scoping rules, written from the language reference)
+
+* either BOTH reject the program – the model with one of its ten SyntaxErrors, the specification
+  because some block is `forbidden` (duplicate parameters, a parameter declared global/nonlocal, a name
+  both global and nonlocal, nonlocal at module level or without a binding in an enclosing function,
+  use/assignment before the declaration),
+* or both accept it and the tables agree (`AgreeTop`): same tree of blocks (type, name); in every nested
+  block every name of the program has a symbol iff the specification classifies it there, with the
+  SAME scope (Local / Cell / Free / GlobalExplicit / GlobalImplicit – cell conversion and free-variable
+  propagation through intermediate blocks included); at module level the same set of names.
+
+The three invariants the first round left open are proved on the way (Proofs*.lean):
+(i) `parseBody_spec` – pass-1 flags = the `events` facts of each block, pass-1 errors = `usedBeforeDecl`/`hasDup`;
+(ii) `blockPre_child`/`forest_spec` – the `bound` set handed to each block is `visible chain`, and the
+     parent's set is the same for every sibling (this is where `temp_bound := bound.Copy()` is used);
+(iii) `blockPost_fun`/`blockPost_cls`/`forest_spec` – cells and propagated free variables = `classify`/`freeVars`.
+"Every name of the program" = `namesOf b` (all names occurring anywhere in it, plus `__class__`, `.0`, `_[1]`). -/
+theorem analyze_spec (σ : Order) (hσ : σ.Valid) (b : Body) :
+    match newSymTable σ b, specAnalyze b with
+    | .ok t, .ok s => AgreeTop (namesOf b) t s
+    | .error _, .error _ => True
+    | _, _ => False := newSymTable_spec hσ b
+
+/-- the analysis rejects exactly the programs the language forbids -/
+theorem analyze_spec_rejects_iff (σ : Order) (hσ : σ.Valid) (b : Body) :
+    (∃ e, newSymTable σ b = .error e) ↔ (∃ e, specAnalyze b = .error e) := by
+  have := analyze_spec σ hσ b
+  cases h : newSymTable σ b <;> cases h' : specAnalyze b <;> simp_all
+
+/-- the classification of a name in the block at `path` (child indices from the module), spec side -/
+def SForest.nth : SForest → Nat → Option ((Name → Option Cls) × SForest)
+  | .nil, _ => none
+  | .node _ _ cls kids _, 0 => some (cls, kids)
+  | .node _ _ _ _ sibs, i + 1 => sibs.nth i
+
+def clsAtAux : List Nat → (Name → Option Cls) → SForest → Name → Option Cls
+  | [], cls, _, n => cls n
+  | i :: rest, _, kids, n => match kids.nth i with
+    | some (cls', kids') => clsAtAux rest cls' kids' n
+    | none => none
+
+def clsAt (s : SForest) (path : List Nat) (n : Name) : Option Cls :=
+  match s with
+  | .node _ _ cls kids _ => clsAtAux path cls kids n
+  | .nil => none
+
+theorem agree_at (U : List Name) : ∀ (path : List Nat) (i : Nat) (kids : Forest) (skids : SForest), Agree U kids skids →
+    ∀ (n : Name), n ∈ U →
+    (match kids.nth i with
+     | some (d, kids') => (match skids.nth i with
+        | some (cls, skids') => steAtAux path d kids' = none ∨
+            (∃ d', steAtAux path d kids' = some d' ∧ (d'.syms.get n).map (·.scope) = (clsAtAux path cls skids' n).map Cls.toScope)
+        | none => False)
+     | none => skids.nth i = none) := by
+  intro path
+  induction path with
+  | nil =>
+    intro i kids skids hag n hn
+    induction i generalizing kids skids with
+    | zero =>
+      cases kids <;> cases skids <;> simp only [Agree] at hag <;> simp only [Forest.nth, SForest.nth]
+      exact Or.inr ⟨_, rfl, hag.2.2.1 n hn⟩
+    | succ i ih =>
+      cases kids <;> cases skids <;> simp only [Agree] at hag <;> simp only [Forest.nth, SForest.nth]
+      exact ih _ _ hag.2.2.2.2
+  | cons j rest ihp =>
+    intro i kids skids hag n hn
+    induction i generalizing kids skids with
+    | zero =>
+      cases kids with
+      | nil => cases skids <;> simp only [Agree] at hag <;> simp only [Forest.nth, SForest.nth]
+      | node d k s =>
+        cases skids with
+        | nil => simp only [Agree] at hag
+        | node kind nm cls sk ss =>
+          simp only [Agree] at hag
+          simp only [Forest.nth, SForest.nth, steAtAux, clsAtAux]
+          have := ihp j k sk hag.2.2.2.1 n hn
+          revert this
+          cases k.nth j with
+          | none => intro h; left; rfl
+          | some r =>
+            obtain ⟨d2, k2⟩ := r
+            cases sk.nth j with
+            | none => intro h; exact h.elim
+            | some r2 => obtain ⟨c2, s2⟩ := r2; exact fun h => h
+    | succ i ih =>
+      cases kids <;> cases skids <;> simp only [Agree] at hag <;> simp only [Forest.nth, SForest.nth]
+      exact ih _ _ hag.2.2.2.2
+
+/-- corollary: wherever the analysis has a table (a nested block at `path = i :: rest`), the scope it
+records for a name of the program is the specification's classification of that name there -/
+theorem analyze_spec_scope (σ : Order) (hσ : σ.Valid) (b : Body) (t : Forest) (s : SForest)
+    (ht : newSymTable σ b = .ok t) (hs : specAnalyze b = .ok s) (i : Nat) (rest : List Nat) (n : Name)
+    (hn : n ∈ namesOf b) (d : Ste) (hd : t.steAt (i :: rest) = some d) :
+    (d.syms.get n).map (·.scope) = (clsAt s (i :: rest) n).map Cls.toScope := by
+  have h := analyze_spec σ hσ b
+  rw [ht, hs] at h
+  cases t with
+  | nil => simp [Forest.steAt] at hd
+  | node st kids sibs =>
+    cases s with
+    | nil => simp only [AgreeTop] at h
+    | node kind nm cls skids ssibs =>
+      cases sibs <;> cases kind <;> cases ssibs <;> simp only [AgreeTop] at h
+      have key := agree_at (namesOf b) rest i kids skids h.2.2.2 n hn
+      simp only [Forest.steAt, steAtAux] at hd
+      simp only [clsAt, clsAtAux]
+      cases hk : kids.nth i with
+      | none => rw [hk] at hd; simp at hd
+      | some r =>
+        obtain ⟨d2, k2⟩ := r
+        rw [hk] at hd key
+        simp only [] at hd key
+        cases hsk : skids.nth i with
+        | none => rw [hsk] at key; exact key.elim
+        | some r2 =>
+          obtain ⟨c2, s2⟩ := r2
+          rw [hsk] at key
+          simp only [] at key ⊢
+          rcases key with h' | ⟨d', h1, h2⟩
+          · rw [h'] at hd; cases hd
+          · rw [h1] at hd; cases hd; exact h2
+
+/-- **pass1_spec** (invariant (i)).  `Parse` over any block body, started from any table `st`: it fails
+iff a `global`/`nonlocal` statement names something the table already has as assigned or used
+(`evBad`, which for a fresh function table is `usedBeforeDecl`) or some nested block is rejected by
+pass 1 (`bad1`: duplicate parameters / the same textual rule); otherwise the table gains exactly the
+def-use flags of the block's `events` (`Acc`), the nested tables hold exactly their blocks' source
+facts (`Parsed`) and the names handed to the module table are those declared `global` anywhere below. -/
+theorem pass1_spec (body : Body) (st : Ste) :
+    match parseBody st body with
+    | .error _ => evBad (seenOf st) (events body) = true ∨ bad1 body = true
+    | .ok (st', kids, gs) => evBad (seenOf st) (events body) = false ∧ bad1 body = false ∧
+        Acc st st' (events body) ∧ Parsed body kids ∧ GsOK gs body := by
+  have := parseBody_spec body st
+  cases h : parseBody st body with
+  | error e => rw [h] at this; exact this
+  | ok r => obtain ⟨a, b, c⟩ := r; rw [h] at this; exact this
+
+/-- non-vacuity: the closure program is accepted by both sides -/
+example : (match newSymTable Order.id closureProg, specAnalyze closureProg with
+    | .ok _, .ok _ => true | _, _ => false) = true := by
+  set_option maxRecDepth 100000 in decide
+
+/-! ## the copy of `bound` in `AnalyzeChildBlock` is load-bearing (seeded change C03-a) -/
+
+/-- `def g1(x=95):` / `  class C2: global x` / `  class C3: p(x)` -/
+def seedC03a : Body :=
+  .child .func "g1" [{ name := "x", val := 95 }]
+    (.child .cls "C2" [] (.op (.glob "x") .nil) <| .child .cls "C3" [] (.op (.use "x") .nil) .nil) .nil
+
+/-- the same with `nonlocal x` in the later sibling -/
+def seedC03a' : Body :=
+  .child .func "g1" [{ name := "x", val := 95 }]
+    (.child .func "f2" [] (.op (.glob "x") .nil) <| .child .func "f3" [] (.op (.nonloc "x") .nil) .nil) .nil
+
+def okScope (r : Except Err Forest) (path : List Nat) (n : Name) : Option Scope :=
+  match r with | .ok t => scopeAt t path n | .error _ => none
+def okCls (r : Except Unit SForest) (path : List Nat) (n : Name) : Option Cls :=
+  match r with | .ok s => clsAt s path n | .error _ => none
+
+/-- **bound_copy_needed_witness.**  `analyze_spec` is FALSE for the analysis without the line
+`temp_bound := bound.Copy()` (`newSymTableNoCopy`: the child's `bound.Discard(x)` for its `global x`
+lands in the parent's set): in `seedC03a` the later sibling's `x` is Free for gpython and for the
+specification but GlobalImplicit without the copy, and `seedC03a'` (`nonlocal x` in the later
+sibling) is accepted by gpython and the specification but rejected (`noBindingNonlocal`) without it. -/
+theorem bound_copy_needed_witness :
+    okScope (newSymTable Order.id seedC03a) [0, 1] "x" = some .free ∧
+    okCls (specAnalyze seedC03a) [0, 1] "x" = some .free ∧
+    okScope (newSymTableNoCopy Order.id seedC03a) [0, 1] "x" = some .globalImplicit ∧
+    okScope (newSymTable Order.id seedC03a') [0, 1] "x" = some .free ∧
+    okCls (specAnalyze seedC03a') [0, 1] "x" = some .free ∧
+    errOf (newSymTableNoCopy Order.id seedC03a') = some .noBindingNonlocal := by
+  set_option maxRecDepth 100000 in decide
+
+/-! ## closures share one cell per variable (VM model) -/
+
+/-- **closure_shares_cell.**  In the VM model (`EvalCode`'s cell/free set-up, `makeClosure`,
+`LOAD/STORE/DELETE_DEREF`): let `f` be an activation of a non-class block in which `x` is a cell or
+free variable held in cell `c`; let two nested functions with free variable `x` be given closures by
+`makeClosure f` and be entered (`enterFunction`) – in any machine states, any number of times.  Then
+(a) both child frames resolve `x` to the SAME cell `c` the parent holds; (b) a rebinding of `x` by the
+parent or by either child (`nonlocal x; x = v`) is one and the same state change, and afterwards the
+parent and both children read `v`; (c) `del x` by a child unbinds it for everybody
+(children: NameError, parent: UnboundLocalError if `x` is its own cell).
+Out of scope: a class body as the PARENT frame (its reads go through LOAD_CLASSDEREF, which consults
+the class namespace first). -/
+theorem closure_shares_cell
+    {f : Frame} {x : Name} {s c : Nat}
+    (hty : f.code.typ ≠ .cls)
+    (hsc : getScope f.code x = .cell ∨ getScope f.code x = .free)
+    (hds : derefSlot f.code x = some s) (hcell : f.cellAndFree[s]? = some c)
+    {c1 c2 : Code} {j1 j2 : Nat}
+    (hs1 : getScope c1 x = .free) (hj1 : findId x c1.freevars = some j1)
+    (hs2 : getScope c2 x = .free) (hj2 : findId x c2.freevars = some j2)
+    {args1 args2 : List (Name × Val)} {cl1 cl2 : List Nat} {f1 f2 : Frame}
+    {ma ma' mb mb' mc mc' md md' : MState}
+    (hm1 : (makeClosure f c1).run ma = .ok (cl1, ma'))
+    (he1 : (enterFunction c1 args1 cl1).run mb = .ok (f1, mb'))
+    (hm2 : (makeClosure f c2).run mc = .ok (cl2, mc'))
+    (he2 : (enterFunction c2 args2 cl2).run md = .ok (f2, md')) :
+    (∀ m : MState,
+      (slotCell f (derefSlot f.code x)).run m = .ok ((s, c), m) ∧
+      (slotCell f1 (derefSlot f1.code x)).run m = .ok ((j1 + c1.cellvars.length, c), m) ∧
+      (slotCell f2 (derefSlot f2.code x)).run m = .ok ((j2 + c2.cellvars.length, c), m)) ∧
+    (f1.code = c1 ∧ f2.code = c2) ∧
+    (∀ (v : Val) (m : MState), c < m.cells.length →
+      let m' : MState := { m with cells := m.cells.set c (some v) }
+      ((storeName f x v).run m = .ok (f, m') ∧
+       (storeName f1 x v).run m = .ok (f1, m') ∧
+       (storeName f2 x v).run m = .ok (f2, m')) ∧
+      ((loadName f x).run m' = .ok (v, m') ∧
+       (loadName f1 x).run m' = .ok (v, m') ∧
+       (loadName f2 x).run m' = .ok (v, m'))) ∧
+    (∀ (w : Val) (m : MState), m.cells[c]? = some (some w) →
+      let m' : MState := { m with cells := m.cells.set c none }
+      (delName f1 x).run m = .ok (f1, m') ∧
+      (loadName f2 x).run m' = .error (.nameError, m') ∧
+      (loadName f1 x).run m' = .error (.nameError, m') ∧
+      (loadName f x).run m' =
+        .error (if s < f.code.cellvars.length then .unboundLocal else .nameError, m')) :=
+  closure_shares_cell_aux hty hsc hds hcell hs1 hj1 hs2 hj2 hm1 he1 hm2 he2
+
+/-- non-vacuity of `closure_shares_cell` at concrete frames (parent with cell variables `w`, `x`;
+one child without and one with a cell of its own) -/
+example :=
+  closure_shares_cell (f := exF) (x := "x") (s := 1) (c := 2)
+    (by decide) (Or.inl (by decide)) rfl rfl
+    (c1 := exC1) (c2 := exC2) (j1 := 0) (j2 := 1) (by decide) (by decide) (by decide) (by decide)
+    (args1 := []) (args2 := [("y", .int 5)]) (cl1 := [2]) (cl2 := [1, 2]) (f1 := exF1) (f2 := exF2)
+    (ma := exM1) (ma' := exM1) (mb := exM1) (mb' := exM1) (mc := exM1) (mc' := exM1)
+    (md := exM1) (md' := exM2) rfl rfl rfl rfl
+
+/-- **closure_shares_cell_run.**  The same as one program run in one state: build closure 1, enter
+`g1`, build closure 2, enter `g2`, `g1` executes `nonlocal x; x = v`, then `g2`, the parent and `g1`
+read `x`: all three get `v`; only cell `c` and the fresh cells of the two calls changed.
+(`hok1`/`hok2`: every free variable of the children is available in `f`, which `analyze_spec`'s
+free-variable propagation provides for analysed programs.) -/
+theorem closure_shares_cell_run
+    {f : Frame} {x : Name} {s c : Nat}
+    (hty : f.code.typ ≠ .cls)
+    (hsc : getScope f.code x = .cell ∨ getScope f.code x = .free)
+    (hds : derefSlot f.code x = some s) (hcell : f.cellAndFree[s]? = some c)
+    {c1 c2 : Code} {j1 j2 : Nat}
+    (hs1 : getScope c1 x = .free) (hj1 : findId x c1.freevars = some j1)
+    (hs2 : getScope c2 x = .free) (hj2 : findId x c2.freevars = some j2)
+    (hok1 : ∀ n ∈ c1.freevars, ∃ s c, closureSlot f.code n = some s ∧ f.cellAndFree[s]? = some c)
+    (hok2 : ∀ n ∈ c2.freevars, ∃ s c, closureSlot f.code n = some s ∧ f.cellAndFree[s]? = some c)
+    (args1 args2 : List (Name × Val)) (v : Val) {m0 : MState} (hc : c < m0.cells.length) :
+    ∃ m' : MState,
+      m'.cells[c]? = some (some v) ∧
+      (∀ i, i < m0.cells.length → i ≠ c → m'.cells[i]? = m0.cells[i]?) ∧
+      m'.cells.length = m0.cells.length + c1.cellvars.length + c2.cellvars.length ∧
+      m'.globals = m0.globals ∧ m'.out = m0.out ∧
+      (do let cl1 ← makeClosure f c1
+          let f1 ← enterFunction c1 args1 cl1
+          let cl2 ← makeClosure f c2
+          let f2 ← enterFunction c2 args2 cl2
+          let _ ← storeName f1 x v
+          let a ← loadName f2 x
+          let b ← loadName f x
+          let d ← loadName f1 x
+          pure (a, b, d)).run m0 = .ok ((v, v, v), m') :=
+  closure_shares_cell_run_aux hty hsc hds hcell hs1 hj1 hs2 hj2 hok1 hok2 args1 args2 v hc
+
+example :=
+  closure_shares_cell_run (f := exF) (x := "x") (s := 1) (c := 2)
+    (by decide) (Or.inl (by decide)) rfl rfl
+    (c1 := exC1) (c2 := exC2) (j1 := 0) (j2 := 1) (by decide) (by decide) (by decide) (by decide)
+    exOk1 exOk2 [] [("y", .int 5)] (.int 9) (m0 := exM1) (by decide)
 
 end GPy.C03
